@@ -9,12 +9,12 @@ arbitrary buffer (any capacity, any length, any dirtiness) and every resolution 
 * byte buffers (`bpool.go`) and byte-slice lists (`byte_slices.go`): `get_ok_bytes`, `get_ok_slices`
   hold unconditionally.
 * item buffers (`writer.go`): `getItemBuf` hands out `B[:length]`, so "empty" means that the
-  `length` visible items are zero.  `putItemBuf` zeroes only `[0, len)`, so a buffer returned with
-  a *shortened* `B` over non-zero items comes back dirty: `itemBuf_dirty_counterexample`.
-  What holds for the code as it is, is `get_ok_items_partial` (hypothesis: every returned item
-  buffer has zero items beyond its length — true for the three call sites in `writer.go`, which
-  never re-slice `itemBuf.B`).  The full statement `get_ok_items_fixed` holds for the variant of
-  `putItemBuf` that clears up to capacity (`putItemBufV true`).
+  `length` visible items are zero.  `putItemBuf` now clears the whole backing array
+  (/repo "fix: putItemBuf clears the whole backing array of a returned item buffer", finding C42-1),
+  and the full statement holds with no hypothesis: `get_ok_items` (= `get_ok_items_fixed`).
+  Before the fix `putItemBuf` zeroed only `[0, len)`, so a buffer returned with a *shortened* `B`
+  over non-zero items came back dirty (checked `example` at `dirtyWitness`); what held then was
+  `get_ok_items_partial` (hypothesis: every returned item buffer has zero items beyond its length).
 -/
 namespace CentrifugeVerif.BPool
 
@@ -297,8 +297,9 @@ theorem get_ok_slices (fix : Bool) (ops : List Op) :
 /-- every `put` of the sequence returns a buffer whose items beyond its length are zero -/
 def PutsTailClean (ops : List Op) : Prop := ∀ b, Op.put b ∈ ops → ∀ x ∈ b.hid, x = false
 
-/-- **item buffers, code as it is** (`_partial`: needs `PutsTailClean`).
-Full statement (false for the unchanged `putItemBuf`, see `itemBuf_dirty_counterexample`):
+/-- **item buffers, code before the fix of C42-1** (`_partial`: needs `PutsTailClean`).
+Full statement (false for that `putItemBuf`, see the `example` at `dirtyWitness`); kept because it
+still says something about the present code too: with disciplined callers even the old clearing sufficed.
 `∀ ops, ∀ x ∈ (runV false .items Pools.empty ops).2, GoodItems x.1 x.2`. -/
 theorem get_ok_items_partial (ops : List Op) (h : PutsTailClean ops) :
     ∀ x ∈ (runV false .items Pools.empty ops).2, GoodItems x.1 x.2 := by
@@ -314,7 +315,8 @@ theorem get_ok_items_partial (ops : List Op) (h : PutsTailClean ops) :
   · exact Inv.empty _
   · intro op hop b hb; subst hb; exact h b hop
 
-/-- **item buffers, `putItemBuf` clearing up to capacity**: the full statement, no hypothesis. -/
+/-- **item buffers, `putItemBuf` clearing up to capacity** (the code as it is): the full statement,
+no hypothesis. -/
 theorem get_ok_items_fixed (ops : List Op) :
     ∀ x ∈ (runV true .items Pools.empty ops).2, GoodItems x.1 x.2 := by
   apply run_good (I := Inv Buf.clean) (A := fun _ => True) (G := GoodItems)
@@ -338,11 +340,14 @@ theorem get_ok_items_current (ops : List Op) (h : itemFixApplied = true ∨ Puts
     | true => exact get_ok_items_fixed ops
     | false => exact get_ok_items_partial ops h
 
-/-- **`get_ok`** — the property for the three pools as currently modelled: after any sequence of
-operations (arbitrary puts, any `sync.Pool` behaviour) every obtained buffer is large enough and
-empty; for item buffers under the stated hypothesis (or none once `itemFixApplied`). -/
-theorem get_ok (k : Kind) (ops : List Op)
-    (h : k = .items → itemFixApplied = true ∨ PutsTailClean ops) :
+/-- **item buffers, code as it is**: every `getItemBuf(n)` after any history yields `len = n`
+(16 for n ≤ 0), `cap ≥ len`, all visible items zero, and never panics. -/
+theorem get_ok_items (ops : List Op) :
+    ∀ x ∈ (run .items Pools.empty ops).2, GoodItems x.1 x.2 :=
+  get_ok_items_current ops (Or.inl rfl)
+
+/-- **`get_ok`** — the property for all three pools as they are in /repo, no hypothesis. -/
+theorem get_ok (k : Kind) (ops : List Op) :
     ∀ x ∈ (run k Pools.empty ops).2,
       match k with
       | .bytes => 0 ≤ x.1 → GoodBytes x.1 x.2
@@ -351,24 +356,25 @@ theorem get_ok (k : Kind) (ops : List Op)
   cases k with
   | bytes => exact get_ok_bytes itemFixApplied ops
   | slices => exact get_ok_slices itemFixApplied ops
-  | items => exact get_ok_items_current ops (h rfl)
+  | items => exact get_ok_items ops
 
 /-- in none of the three pools does an in-range request or any `put` panic (index out of range,
 slice bounds): every `get` result is a buffer. -/
-theorem get_never_panics_items (ops : List Op) (h : itemFixApplied = true ∨ PutsTailClean ops) :
+theorem get_never_panics_items (ops : List Op) :
     ∀ x ∈ (run .items Pools.empty ops).2, x.2 ≠ Res.panic := by
   intro x hx
-  obtain ⟨b, hb, _⟩ := get_ok_items_current ops h x hx
+  obtain ⟨b, hb, _⟩ := get_ok_items ops x hx
   rw [hb]; intro h; cases h
 
-/-! ## the unchanged `putItemBuf` does hand out dirty items -/
+/-! ## `putItemBuf` before the fix did hand out dirty items -/
 
 /-- a buffer of capacity 2 returned with `B` re-sliced to length 0 over two non-zero items -/
 def dirtyWitness : List Op := [.put ⟨[], [true, true]⟩, .get 2 (some 0)]
 
-/-- Counter-witness to the full statement for the code as it is: after `putItemBuf` of a buffer
-whose `B` was shortened over non-zero items, `getItemBuf(2)` returns those items. -/
-theorem itemBuf_dirty_counterexample :
+/- Counter-witness for the code *before* the fix (checked `example`, not an obligation): after
+`putItemBuf` of a buffer whose `B` was shortened over non-zero items, `getItemBuf(2)` returned
+those items. -/
+example :
     (runV false .items Pools.empty dirtyWitness).2 = [(2, .buf ⟨[true, true], []⟩)] ∧
     ¬ GoodItems 2 (.buf ⟨[true, true], []⟩) := by
   refine ⟨by decide, ?_⟩
@@ -376,8 +382,8 @@ theorem itemBuf_dirty_counterexample :
   cases hb
   exact absurd (hclean true (by simp)) (by decide)
 
-/-- … and the cleared-to-capacity variant does not. -/
-example : (runV true .items Pools.empty dirtyWitness).2 = [(2, .buf ⟨[false, false], []⟩)] := by decide
+/-- … and the code as it is does not. -/
+example : (run .items Pools.empty dirtyWitness).2 = [(2, .buf ⟨[false, false], []⟩)] := by decide
 
 /-! ## non-vacuity -/
 
